@@ -192,6 +192,31 @@ static int drain_stream(sqfs_istream_t *strm)
 	return 0;
 }
 
+/* Skip what is left of the data of an entry. Unlike sqfs_istream_skip, this
+   does not take an early end of the input for the end of the archive. */
+static int skip_payload(sqfs_istream_t *strm, sqfs_u64 size)
+{
+	const sqfs_u8 *ptr;
+	size_t diff;
+	int ret;
+
+	while (size > 0) {
+		ret = strm->get_buffered_data(strm, &ptr, &diff, size);
+		if (ret < 0)
+			return ret;
+		if (ret > 0)
+			return SQFS_ERROR_CORRUPTED;
+
+		if ((sqfs_u64)diff > size)
+			diff = size;
+
+		size -= diff;
+		strm->advance_buffer(strm, diff);
+	}
+
+	return 0;
+}
+
 static int it_next(sqfs_dir_iterator_t *it, sqfs_dir_entry_t **out)
 {
 	tar_iterator_t *tar = (tar_iterator_t *)it;
@@ -206,7 +231,7 @@ static int it_next(sqfs_dir_iterator_t *it, sqfs_dir_entry_t **out)
 		return tar->state;
 retry:
 	if (tar->record_size > 0) {
-		ret = sqfs_istream_skip(tar->stream, tar->record_size);
+		ret = skip_payload(tar->stream, tar->record_size);
 		if (ret)
 			goto fail;
 	}
